@@ -93,6 +93,23 @@ func (f *failingReader) Read(p []byte) (int, error) {
 
 func (f *failingReader) Close() error { return f.rc.Close() }
 
+// rawImage makes an in-memory image behave like one pulled from a registry:
+// Manifest() is what parsing RawManifest() yields (mutate's in-memory
+// manifests carry empty annotation maps that do not survive serialisation,
+// which go-containerregistry's validate.Image reports as a mismatch).
+type rawImage struct{ regv1.Image }
+
+func (r rawImage) Manifest() (*regv1.Manifest, error) {
+	b, err := r.RawManifest()
+	if err != nil {
+		return nil, err
+	}
+	return regv1.ParseManifest(bytes.NewReader(b))
+}
+
+// AsPulled wraps an in-memory image so that it validates like a pulled one.
+func AsPulled(img regv1.Image) regv1.Image { return rawImage{img} }
+
 // BuildImage builds a package image carrying the YAML stream in the given
 // layout. wrap, if not nil, wraps the package layer (fault injection).
 func BuildImage(stream []byte, layout Layout, wrap func(regv1.Layer) regv1.Layer) regv1.Image {
@@ -126,7 +143,7 @@ func BuildImage(stream []byte, layout Layout, wrap func(regv1.Layer) regv1.Layer
 		add(other, false)
 		add(pkgLayer, true)
 	}
-	return img
+	return rawImage{img}
 }
 
 // RevisionOptions configure NewRevisionReconciler.
